@@ -75,14 +75,19 @@ def run(tier, seed, replay):
         c3 = json.load(open(s3))
         sm_cov = {"model_behaviours_replayed": len(behaviours), "model_replay_trace_lines": c3["lines"], "model_replay_events": c3["events"],
                   "model_replay_accepted_events": c3["ok_events"], "model_replay_drift": dict(report.last_drift), "model_replay_states": st3}
+    # ---- the enumerated dispute scenarios (votes by the disputed reporter before / after its selectors, nobody voting, ...) ----
+    n4 = 0; sc_cov = {}
+    if not replay:
+        import scen
+        n4, sc_cov = scen.run(PID, "Dispute_Life_Trace", "dispute,bank", tier, seed)
     cov = {"states": mc.distinct + st1 + st2, "transitions": mc.generated + tr1 + tr2,
            "traces_validated_against_impl": a["cases"] + b["histories"], "samples": (a["samples"][:2] + [{k: v for k, v in s.items() if k != "post"} for s in b["samples"][:1]]) or [{"note": "none"}],
            "tally_cases_enumerated": len(allcases), "tally_cases_replayed": a["cases"], "tally_results": a["results"],
            "inductive_invariant": {"tool": "apalache-mc 0.58", "module": "DisputeInd", "established": "Init => IndInv, IndInv /\\ Next => IndInv': the begin-blocker never meets a dispute it cannot execute, only the last round of a family is executed, status/flag/result consistency - for any number of steps, any block times, any tally outcomes", "wall_s": round(ind_wall, 1)},
-           "design_level": [{"module": "DisputeSM_MC", "distinct_states": dm.distinct, "generated": dm.generated, "depth": dm.depth, "wall_s": round(dm.wall, 1)}], **sm_cov,
+           "design_level": [{"module": "DisputeSM_MC", "distinct_states": dm.distinct, "generated": dm.generated, "depth": dm.depth, "wall_s": round(dm.wall, 1)}], **sm_cov, **sc_cov,
            "histories": b["histories"], "history_lines": b["lines"], "events": b["events"], "accepted_events": b["ok_events"], "known_findings_seen": known,
            "explanation": "DisputeInd.tla: the life cycle typed for Apalache with an inductive invariant (established by apalache-mc for unbounded steps, times and tally outcomes). DisputeSM.tla: the dispute life cycle as a constructive state machine (new dispute / further round / added fee / vote with immediate tally / begin-block expiry, tally and execution), one operator per critical section of x/dispute; DisputeSM_MC checks the design exhaustively over all interleavings of proposals, fees, votes and block gaps of 1..7 half-days (begin-block can never fail, nothing overdue after a begin-block, one open round per report, executed once and final, status graph, rounds chain); the model's behaviours (TLC -simulate) are replayed on real chains and every recorded step - of replays and of random histories - must match the model (MODEL clauses, reported as drift). Dispute.tla: status graph, round fee doubling, vote guards, vote weights (team fixed, tips and stake as of the dispute block, selector vote removed from its reporter), TallyResult (two-stage quorum, strict maximum, invalid on ties). Tally_MC enumerates distributions (weights 0..2 per group and choice, group totals incl. zero, team absent/S/A/I, period over or not); a seeded sample (all ties and zero totals first) is installed in the real keeper by state injection and the real TallyVote is run; TLC compares result and totality. Recorded histories with scripted dispute stories (multi-round, votes by team/tippers/reporters/selectors/holders, deadlines at 1/2/3 days) are validated against Dispute_Life_Trace: status steps, no transition twice, vote guards, voter record weights from observed inputs, counts = sum of voter records, recorded result = formula."}
-    vf.write_evidence(PID, tier, seed, "model_checking", cov, time.time() - t0, n1 + n2 + n3,
+    vf.write_evidence(PID, tier, seed, "model_checking", cov, time.time() - t0, n1 + n2 + n3 + n4,
                       ["tally cases are installed by writing VoteCountsByGroup / BlockInfo / Votes / Voter directly (state injection), weights scaled to the chain's real supply",
                        "vote-weight inputs (tips at the dispute block, stake snapshots, liquid balance) are read from the keepers before each vote"])
-    return 1 if (n1 + n2 + n3) else 0
+    return 1 if (n1 + n2 + n3 + n4) else 0
